@@ -1208,12 +1208,26 @@ impl Sim {
                     1000,
                     Ev::Post { post, url: arrival.request.url.clone(), sub: sub.clone(), parse_ok, recv, msg_id_dupe: dupe, content_type, attrs: attrs_small },
                 );
-                let (_attempt, behaviour) = sim.behaviour_for(&sub, &msg_key);
+                let (attempt, behaviour) = sim.behaviour_for(&sub, &msg_key);
+                // Fault kind "broken body": the status line arrives, the response body behind it breaks off.
+                // The property looks at the status only, so the oracle is told the status; a dispatcher that
+                // reads the body before it decides sees an error here. Derived from the plan seed and the
+                // (message, subscription, attempt) key, no PRNG draw; off once faults are off.
+                let body_broken = !sim.endpoint.borrow().faults_off
+                    && mix3(sim.plan.seed, crate::rng::fnv_str(&msg_key) ^ crate::rng::fnv_str(&sub), attempt as u64 ^ 0xB0D1_B0D1) % 3 == 0;
+                let wire = move |code: u16| -> u16 {
+                    if body_broken {
+                        *crate::hooks::HOOKS.st.lock().unwrap().probes.entry("push_body_broken_sent").or_insert(0) += 1;
+                        code + deltio::verif::PUSH_BODY_BROKEN
+                    } else {
+                        code
+                    }
+                };
                 tokio::task::spawn_local(async move {
                     match behaviour {
                         Behaviour::Status(code) => {
                             sim2.log(1000, Ev::Answer { post, status: Some(code), never: false });
-                            let _ = arrival.responder.send(Ok(code));
+                            let _ = arrival.responder.send(Ok(wire(code)));
                         }
                         Behaviour::ConnErr => {
                             sim2.log(1000, Ev::Answer { post, status: None, never: false });
@@ -1222,7 +1236,7 @@ impl Sim {
                         Behaviour::Delay(ms, code) => {
                             tokio::time::sleep(Duration::from_millis(ms)).await;
                             sim2.log(1000, Ev::Answer { post, status: Some(code), never: false });
-                            let _ = arrival.responder.send(Ok(code));
+                            let _ = arrival.responder.send(Ok(wire(code)));
                         }
                         Behaviour::Never => {
                             sim2.log(1000, Ev::Answer { post, status: None, never: true });
